@@ -13,6 +13,7 @@ import BevySyncModel.Slice.Skin
 import BevySyncModel.Slice.Fix
 import BevySyncModel.Slice.Filter
 import BevySyncModel.Slice.Ent
+import BevySyncModel.Slice.Conn
 /-! `bsmodel`: runs the executable model definitions on the cases the Rust harness prints, one line
 in, one line out (`ok <id>` / `MISMATCH <id> <what>`).  Lines starting with `#` are ignored.
 Only model files are imported (no proofs, no Mathlib), so this links as a native executable.
@@ -625,6 +626,35 @@ def checkFilter (toks : List String) : String :=
     | none => "MISMATCH parse filter class"
   | _ => "MISMATCH parse filter"
 
+/-! ### connection states (C15): `conn <id> <legacy> <script>`; script tokens ;-separated:
+`si`/`sr` insert/remove server transport, `ci`/`cr` client transport, `k1`/`k0` RenetClient connected or not,
+`f` one frame, `x:<ServerState>:<ClientState>` what the implementation published after the frame -/
+def csName : Conn.CS → String
+  | .disconnected => "Disconnected" | .connecting => "Connecting" | .connected => "Connected"
+
+def checkConn (toks : List String) : String :=
+  match toks with
+  | [lg, script] =>
+    let legacy := lg == "1"
+    let rec go (s : Conn.Server) (c : Conn.Client) (n : Nat) : List String → String
+      | [] => "ok"
+      | t :: rest =>
+        match t.splitOn ":" with
+        | ["si"] => go s.insert c (n + 1) rest
+        | ["sr"] => go s.remove c (n + 1) rest
+        | ["ci"] => go s c.insert (n + 1) rest
+        | ["cr"] => go s c.remove (n + 1) rest
+        | ["k1"] => go s (c.setConnected true) (n + 1) rest
+        | ["k0"] => go s (c.setConnected false) (n + 1) rest
+        | ["f"] => go s.frame (c.frame legacy) (n + 1) rest
+        | ["x", ss, cs] =>
+          let ms := if s.state then "Connected" else "Disconnected"
+          if ms == ss && csName c.state == cs then go s c (n + 1) rest
+          else s!"MISMATCH conn: after {n} script steps the model publishes {ms}/{csName c.state}, the implementation {ss}/{cs}"
+        | _ => "MISMATCH parse conn script"
+    go {} {} 0 (script.splitOn ";")
+  | _ => "MISMATCH parse conn"
+
 def handle (st : DState) (line : String) : DState × Option String :=
   let line := line.trimAscii.toString
   if line.isEmpty || line.startsWith "#" then (st, none)
@@ -652,6 +682,7 @@ def handle (st : DState) (line : String) : DState × Option String :=
         | "skin" => checkSkin rest
         | "fixrun" => checkFixRun rest
         | "filter" => checkFilter rest
+        | "conn" => checkConn rest
         | _ => "MISMATCH unknown line kind"
       (st, some s!"{r} {id}")
     | _ => (st, some "MISMATCH parse ?")
